@@ -47,6 +47,7 @@ def plan(tier: str, seed: int) -> list[dict]:
     for i in range(3 if q else 6):
         specs.append({"name": f"wallet-{i}", "fn": "shard_wallet", "histories": 250 if q else 5000, "_budget_s": 150 if q else 900, "_timeout_s": 500 if q else 2400})
     specs.append({"name": "independence", "fn": "shard_independence", "rounds": 6 if q else 80, "_budget_s": 150 if q else 900, "_timeout_s": 500 if q else 2400})
+    specs.append({"name": "publication", "fn": "shard_publication", "_budget_s": 100 if q else 400, "_timeout_s": 500 if q else 1500})
     for i in range(6 if q else 10):
         specs.append({"name": f"threads-{i}", "fn": "shard_threads", "schedules": 5 if q else 200, "threads": 4 + i % 5,
                       "_budget_s": 150 if q else 1000, "_timeout_s": 600 if q else 2400})
@@ -68,6 +69,8 @@ def finalize(m: dict, tier: str) -> list[str]:
         out.append(f"fewer than 1000 thread switches observed inside the anchored files ({s.get('threads:switches', 0)})")
     if not c.get("schedule"):
         out.append("no multi-threaded schedule was run")
+    if not s.get("publication:reader-at-a-publication-point"):
+        out.append("no reader was run at a publication point of the lazily loaded word lists")
     return out
 
 
@@ -689,3 +692,102 @@ def shard_threads(ctx: Ctx) -> None:
                  sample={"threads": nthreads, "switches": inj.switches, "switch_points": len(inj.points), "schedule_id": hex(inj.sched)})
     ctx.stats["threads:distinct-schedules"] += len(sched_ids)
     sys.setswitchinterval(0.005)
+
+
+# ===================================================== publication points
+def shard_publication(ctx: Ctx) -> None:
+    """The lazily loaded word lists are the one shared structure of the library that is *published* step by step
+    (words, index, count) while other threads may read it. A loader is parked at each publication step -- inside the
+    assignment itself, by a dict that calls back -- and every public read is asked from another thread at that point:
+    it must either wait for the loader or answer what the word-list file says, never an answer made of half a
+    publication. Deterministic injected delay at the points where the structure changes, not a race to be won."""
+    import threading
+
+    from btclib.mnemonic import mnemonic as mn
+
+    r = ctx.rng
+    langs = [lang for lang in mn.WORDLISTS.languages]
+    r.shuffle(langs)
+
+    def truth(wl, lang):
+        return wl._read_wordlist(mn.data_file(f"{lang}.txt")) if hasattr(mn, "data_file") else None
+
+    for lang in langs[: 4 if ctx.tier == "quick" else len(langs)]:
+        if ctx.out_of_time():
+            break
+        ref = mn.WordLists()
+        words = outcome(lambda: list(ref.wordlist(lang)))      # a quiet, single-threaded load is the source of truth
+        if words[0] == "raise":
+            ctx.stat("publication:language-not-loadable")
+            continue
+        words = words[1]
+        probes = [words[0], words[-1], words[len(words) // 2]]
+        wl = mn.WordLists()
+        findings: list = []
+        pending: list = []
+
+        class Parking(dict):
+            def __init__(self, name, src):
+                super().__init__(src)
+                self.name = name
+
+            def __setitem__(self, k, v):
+                super().__setitem__(k, v)
+                if k != lang or threading.current_thread() is not loader_thread[0]:
+                    return
+                for op, call, want in reads:
+                    box = {}
+
+                    def run(call=call, box=box):
+                        try:
+                            box["ok"] = call()
+                        except Exception as e:  # noqa: BLE001
+                            box["exc"] = e
+                    t = threading.Thread(target=run, daemon=True)
+                    t.start()
+                    t.join(0.15)
+                    ctx.stat("publication:reader-at-a-publication-point")
+                    if t.is_alive():
+                        ctx.stat("publication:reader-waited-for-the-loader")
+                        pending.append((self.name, op, t, box, want))
+                    else:
+                        findings.append((self.name, op, box, want, "during"))
+
+        reads = [("index(first)", lambda: wl.index(probes[0], lang), 0), ("index(last)", lambda: wl.index(probes[1], lang), len(words) - 1),
+                 ("index(middle)", lambda: wl.index(probes[2], lang), len(words) // 2), ("language_length", lambda: wl.language_length(lang), len(words)),
+                 ("wordlist[last]", lambda: wl.wordlist(lang)[-1], words[-1]), ("langs_of_words", lambda: lang in wl.langs_of_words(probes), True),
+                 ("indexes_from_mnemonic", lambda: mn.indexes_from_mnemonic(" ".join(probes), lang, wl), [0, len(words) - 1, len(words) // 2])]
+        loader_thread = [None]
+        for attr in ("_index", "_wordlist", "_language_length"):
+            cur = getattr(wl, attr, None)
+            if isinstance(cur, dict):
+                setattr(wl, attr, Parking(attr, cur))
+            else:
+                ctx.stat(f"publication:attribute-absent:{attr}")
+
+        def load():
+            loader_thread[0] = threading.current_thread()
+            wl.load_lang(lang)
+        lt = threading.Thread(target=load, daemon=True)
+        lt.start()
+        lt.join(60)
+        if lt.is_alive():
+            ctx.inconclusive_(f"publication: the parked loader of {lang} did not finish")
+            return
+        for name, op, t, box, want in pending:
+            t.join(10)
+            if t.is_alive():
+                ctx.violation("publication:reader-never-returned", f"{op} asked while {lang} was being published at {name} never returned", {"lang": lang, "op": op, "at": name})
+            else:
+                findings.append((name, op, box, want, "after-waiting"))
+        for name, op, box, want, when in findings:
+            case = {"lang": lang, "op": op, "published-so-far": name, "when": when}
+            ctx.case("publication:read", (lang, name, op, when), sample=case)
+            if "exc" in box:
+                ctx.violation(f"publication:reader-refused-a-valid-word:{op.split('(')[0]}",
+                              f"{op} asked while load_lang('{lang}') was at the assignment of {name}: {box['exc']!r}", case)
+            elif box.get("ok") != want:
+                ctx.violation(f"publication:reader-saw-half-a-publication:{op.split('(')[0]}",
+                              f"{op} asked while load_lang('{lang}') was at the assignment of {name} answered {box.get('ok')!r}, the file says {want!r}", case)
+            else:
+                ctx.stat("publication:reader-answered-correctly")
